@@ -367,18 +367,37 @@ def run_framers(case):
             src.set_packet_sink(sink)
             evaluations += 1
             try:
+                # (inside the loop, as the transport would call it)
                 if case['bad'] == 'last_of_chunk':
-                    src.data_received(head + bad)
+                    sim.call(src.data_received, head + bad)
                 else:
-                    src.data_received(head)
-                    src.data_received(bad)
+                    sim.call(src.data_received, head)
+                    sim.call(src.data_received, bad)
                 for ch in _chunk(tail, [r.randrange(1, max(2, len(tail))) for _ in range(3)]):
-                    src.data_received(ch)
+                    sim.call(src.data_received, ch)
             except Exception as e:
                 sim.violation_once('bad-stream', f'bad-type-byte:stream-source-raised:{case["bad"]}:{type(e).__name__}', repr(e))
             if sink.got != expected and not sim.violations:
                 what = 'spurious-or-duplicated' if len(sink.got) > len(expected) else ('lost' if len(sink.got) < len(expected) else 'different-bytes')
                 sim.violation_once('bad-stream', f'bad-type-byte:stream-source-packets-{what}:{case["bad"]}', f'{len(sink.got)} packets delivered, {len(expected)} well-formed packets were sent around the bad byte')
+
+        # ---- the same stream through the stream transports' protocol object, its chunks arriving at seeded virtual times (pauses of
+        # milliseconds to minutes, also in the middle of a packet): time does not move a packet boundary
+        if not sim.violations and n >= 2:
+            sink = Sink()
+            src = sim.call(common.StreamPacketSource)
+            src.set_packet_sink(sink)
+            evaluations += 1
+            chunks = _chunk(stream, [r.randrange(1, n) for _ in range(r.randint(1, 6))])
+            try:
+                for ch in chunks:
+                    sim.loop.advance(r.choice([0.0, 0.001, 0.3, 1.5, 5.0, 120.0]))
+                    sim.call(src.data_received, ch)
+            except Exception as e:
+                sim.violation_once('timed', f'stream-source:raised-on-well-formed-stream:{type(e).__name__}', repr(e))
+            if sink.got != expected and not sim.violations:
+                sim.violation_once('timed', 'stream-source:different-packets:chunks-spread-over-time', f'{len(sink.got)} packets, expected {len(expected)}; chunk sizes {[len(c) for c in chunks][:6]}')
+            sim.probe('chunks_spread_over_virtual_time')
 
         # ---- unrecognised type byte at a packet boundary
         if case['bad'] and len(expected) >= 2:
